@@ -206,7 +206,7 @@ where
                 (4, body),
             ])))
         }
-        Level::Gen(_) | Level::SkipUnchecked => unreachable!(),
+        Level::Gen(_) | Level::SkipUnchecked | Level::Pb(_) => unreachable!(),
     })();
     let consumed = total - p.buf().remaining();
     let mut next = None;
@@ -370,7 +370,7 @@ async fn stream_main<P: TAsyncInputProtocol>(p: &mut P, level: &Level, pos: &std
                     (4, body),
                 ])))
             }
-            Level::Gen(_) | Level::SkipUnchecked => unreachable!(),
+            Level::Gen(_) | Level::SkipUnchecked | Level::Pb(_) => unreachable!(),
         }
     }
     .await;
@@ -475,4 +475,98 @@ pub fn run_stream(case: &Case, gens: &[GenType], caps: AllocCaps, tag: u64) -> L
         alloc: win,
         input_unique: true,
     }
+}
+
+// --------------------------------------------------------------- protobuf legs
+
+/// Run a protobuf leg. `fragmented` = through SimBuf with the case's chunk plan
+/// (schedule events = chunk sizes), otherwise on one contiguous Bytes.
+pub fn run_pb(case: &Case, fragmented: bool, caps: AllocCaps, tag: u64) -> LegOut {
+    use crate::pwire::*;
+    let Level::Pb(name) = &case.level else { unreachable!() };
+    let total = case.bytes.len();
+    let parts: Vec<&str> = name.split(':').collect();
+    let chunks: Vec<u32> = case
+        .sched
+        .evs
+        .iter()
+        .filter_map(|e| match e {
+            crate::stream::Ev::Deliver(n) => Some(*n),
+            _ => None,
+        })
+        .collect();
+    let mut stats = StreamStats::default();
+    // the buffer is harness state: built before the measurement window opens
+    let mut frag = if fragmented { Some(SimBuf::new(case.bytes.clone(), &chunks, case.sched.tail)) } else { None };
+    let mut cont = if fragmented { None } else { Some(Bytes::from(case.bytes.clone())) };
+    let wt = parts.get(2).and_then(|x| x.parse::<u8>().ok()).and_then(wire_type_of);
+    let rep = parts.get(3) == Some(&"r");
+    alloc::window_begin(tag, caps.single, caps.window);
+    let r = catch_unwind(AssertUnwindSafe(|| -> (Result<(), pilota::prost::DecodeError>, usize, (u64, u64)) {
+        macro_rules! with_buf {
+            (|$b:ident| $body:expr) => {{
+                if let Some($b) = frag.as_mut() {
+                    let r = $body;
+                    let left = bytes::Buf::remaining($b);
+                    (r, total - left, ($b.chunk_calls.get(), $b.short_chunks.get()))
+                } else {
+                    let $b = cont.as_mut().unwrap();
+                    let r = $body;
+                    let left = bytes::Buf::remaining($b);
+                    (r, total - left, (0, 0))
+                }
+            }};
+        }
+        match parts[0] {
+            "pbgen" => with_buf!(|b| decode_gen(parts[1], &mut *b, false)),
+            "pbgenld" => with_buf!(|b| decode_gen(parts[1], &mut *b, true)),
+            "pbwrap" => with_buf!(|b| decode_wrapper(parts[1], &mut *b)),
+            "pbcodec" => match wt {
+                Some(wt) => with_buf!(|b| decode_codec(parts[1], wt, &mut *b, rep)),
+                None => (Err(pilota::prost::DecodeError::new("harness:bad wire type")), 0, (0, 0)),
+            },
+            _ => (Err(pilota::prost::DecodeError::new("harness:bad level")), 0, (0, 0)),
+        }
+    }));
+    let win = alloc::window_end();
+    let (res, consumed) = match r {
+        Ok((Ok(()), consumed, st)) => {
+            stats.polls = st.0;
+            stats.short_reads = st.1;
+            (LegRes::Ok(Val::Unit), consumed)
+        }
+        Ok((Err(e), consumed, st)) => {
+            stats.polls = st.0;
+            stats.short_reads = st.1;
+            let msg = e.to_string();
+            let harness = msg.contains("harness:");
+            let kind = if msg.contains("recursion limit reached") {
+                "pb:recursion_limit"
+            } else if msg.contains("buffer underflow") {
+                "pb:buffer_underflow"
+            } else if msg.contains("invalid varint") {
+                "pb:invalid_varint"
+            } else if msg.contains("invalid wire type") {
+                "pb:wire_type"
+            } else if msg.contains("end group") {
+                "pb:group"
+            } else if msg.contains("UTF-8") {
+                "pb:utf8"
+            } else if msg.contains("delimited length exceeded") {
+                "pb:length_exceeded"
+            } else if msg.contains("invalid key") || msg.contains("invalid tag") {
+                "pb:key"
+            } else {
+                "pb:other"
+            };
+            let mut m = msg;
+            m.truncate(300);
+            (LegRes::Err { info: ErrInfo { kind: kind.into(), msg: m }, depth_limit: kind == "pb:recursion_limit", harness }, consumed)
+        }
+        Err(_) => {
+            let (site, msg) = take_panic();
+            (LegRes::Panic { site, msg }, 0)
+        }
+    };
+    LegOut { res, consumed, skip_ret: None, next: None, consumed_total: consumed, polls: 0, ticks: 0, stream: stats, alloc: win, input_unique: true }
 }
